@@ -326,6 +326,9 @@ def run(ctx):
     # reports depends on the renderer's namespace threading (shared with C09)
     from . import c09
     c09.namespace(ctx)
+    # ---- "newtype structs ... deserializes back to an equal value": the codec is transparent for them on both sides
+    from .c03 import newtype_rule
+    newtype_rule(ctx)
 
     # ---- macro side, on the corpus
     c20gen.run(ctx)
